@@ -88,13 +88,34 @@ def rescale_sources(desc, f):
                 d['args'][k] = d['args'][k] * f
     return desc
 
+LEVELS = [2.0 ** -40, 2.0 ** -30, 2.0 ** -20, 2.0 ** 20, 2.0 ** 30, 2.0 ** 40]
+
+def rescale_impedances(desc, f):
+    """multiply the impedance level of the whole network by the (power-of-two, hence exact) factor f:
+    impedances ×f, admittances ÷f, current sources ÷f — potentials and voltages keep their values,
+    currents scale by 1/f.  Pico-farad / giga-ohm and milli-ohm networks are ordinary circuits."""
+    for d in desc['branches']:
+        a = d['args']; k = d['kind']
+        if k == 'resistor': a['R'] = a['R'] * f
+        elif k == 'conductor': a['G'] = a['G'] / f
+        elif k in ('impedance', 'vs_lossy'): a['Z'] = a['Z'] * f
+        elif k == 'admittance': a['Y'] = a['Y'] / f
+        elif k == 'cs_lossy': a['Y'] = a['Y'] / f; a['I'] = a['I'] / f
+        elif k == 'cs_ideal': a['I'] = a['I'] / f
+        elif k == 'load_v': a['P'] = a['P'] / f; a['Q'] = a['Q'] / f
+        elif k == 'load_i': a['P'] = a['P'] / f; a['Q'] = a['Q'] / f; a['I_ref'] = a['I_ref'] / f
+    return desc
+
 def random_desc(rng, exact=True, n_nodes=None, n_extra=None, kinds=None, degenerate=0.0,
-                positive=False, min_sources=1, magnitudes=0.15):
+                positive=False, min_sources=1, magnitudes=0.15, levels=0.12):
     """as below; with probability `magnitudes` all sources are rescaled to pico / micro / mega
-    magnitudes (exact power-of-two factor)"""
+    magnitudes, with probability `levels` the impedance level of the network is (exact
+    power-of-two factors)"""
     d = _random_desc(rng, exact, n_nodes, n_extra, kinds, degenerate, positive, min_sources)
     if rng.random() < magnitudes:
         rescale_sources(d, rng.choice(MAGNITUDES))
+    if rng.random() < levels:
+        rescale_impedances(d, rng.choice(LEVELS))
     return d
 
 def _random_desc(rng, exact=True, n_nodes=None, n_extra=None, kinds=None, degenerate=0.0,
@@ -250,3 +271,29 @@ def ymax_json(jnet):
         else:
             m = max(m, a)
     return m
+
+
+def net_scales(network):
+    """(pscale, iscale): magnitudes that potentials / currents of this implementation network are made of —
+    source values and their images under the network's own immittances.  Results that are small only
+    because large terms cancel (a shorted source, a dangling lossy source) carry rounding noise of this size,
+    so comparisons use max(observed magnitudes, these) as the reference for a relative tolerance."""
+    import cmath
+    vs, cs, ys = [0.0], [0.0], []
+    for b in network.branches:
+        e = b.element
+        for attr, lst in (('V', vs), ('I', cs)):
+            try:
+                x = complex(getattr(e, attr))
+                if cmath.isfinite(x): lst.append(abs(x))
+            except Exception:
+                pass
+        try:
+            y = complex(e.Y)
+            if cmath.isfinite(y) and y != 0: ys.append(abs(y))
+        except Exception:
+            pass
+    ymax = max(ys or [1.0]); ymin = min(ys or [1.0])
+    pscale = max(max(vs), max(cs) / ymin)
+    iscale = max(max(cs), pscale * ymax)
+    return pscale, iscale
